@@ -4,7 +4,7 @@ from diffcheck import Spec, run_spec
 from props import httpgen as G
 from props.c01 import split_out
 
-HARNESSES = [("h_parser", "asan", ())]
+HARNESSES = [("h_parser", "asan", ()), ("h_client", "plain", ()), ("h_timeout", "plain", ())]
 
 
 def split_q(line):
@@ -150,8 +150,66 @@ class C04(Spec):
         return "seq-" + case.split()[1] + "-" + ">".join(firsts)
 
 
+# successive responses on a pooled client connection: what a response leaves behind (bytes nobody asked for, the late rest of a
+# response that could not be parsed) must not reach the next request on that slot (h_client, model area client)
+POOLED = ["K 1 1 600 U a 300", "K 1 1 600 P a 300", "K 1 1 600 S a 300", "K 1 1 600 W a 300", "K 1 1 600 D a 300", "K 1 1 600 D,a,a a 300",
+          "K 1 1 600 a,b,c,a d,a 300", "K 1 1 600 W a,W 300", "K 1 2 600 U,W a,a 300", "K 1 1 600 h a 300", "K 1 1 600 H a,a 300"]
+
+
+# the next request begins in the read that ends the previous one: Handler::onInput serves one request per read and its reset drops
+# the rest of the buffer - the next request is lost, or (its head dropped) parsed from its middle (open finding
+# C04-next-request-in-same-read; the expectations are the property's)
+_M1 = b"GET /one HTTP/1.1\r\nHost: a\r\n\r\n"
+SAME_READ = {
+    "Z 4096 " + pv.hexs(_M1 + b"GET /two?q=2 HTTP/1.1\r\nHost: b\r\n\r\n"): "Z codes=200,200 handler=2 seen=/one:0,/two:0",
+    "Z 4096 " + pv.hexs(_M1 + b"POST /comment HTTP/1.1\r\nX-Note: ") + "," + pv.hexs(b"GET /other?leaked=1 HTTP/1.1\r\n\r\n"): "Z codes=200,200 handler=2 seen=/one:0,/comment:0",
+}
+
+
+class C04WithClient(C04):
+    def same_read(self, rep):
+        exe = pv.build_harness("h_timeout", "plain")
+        cases = list(SAME_READ)
+        impl, _ = pv.run_parallel([exe], cases, shard=1, env={"PV_CASE_TIMEOUT": "30"})
+        for c, i in zip(cases, impl):
+            if i != SAME_READ[c]:
+                what = ("a request that begins in the read that ends the previous one is not parsed as on a fresh connection: the server did '%s', "
+                        "expected '%s'" % (i, SAME_READ[c]))
+                k = self.known(c, i, None, what)
+                if k:
+                    rep.known_finding(k[0], k[1])
+                else:
+                    rep.violation(what, {"kind": "input", "case": c, "impl_output": i, "how_to_run": "tools/check.py --property C14 --replay <this file>"})
+        return len(cases)
+
+    def extra(self, rep, tier, seed):
+        self.same_read(rep)
+        from props.c15 import C15, strip_conn
+        c15 = C15()
+        exe = pv.build_harness("h_client", "plain")
+        drv = pv.build_model_driver()
+        cases = POOLED * (1 if tier == "quick" else 4)
+        impl, _ = pv.run_parallel([exe], cases, shard=1, env={"PV_CASE_TIMEOUT": "60"})
+        model, _ = pv.run_parallel([drv, "client"], cases)
+        seen = set()
+        for c, i, m in zip(cases, impl, model):
+            what = c15.oracle(c, i)
+            if not what and strip_conn(i) != strip_conn(m):
+                what = "pooled client connection, server script %s: the client did '%s', the model says '%s'" % (c, i, m)
+            if what and (c, what) not in seen:
+                seen.add((c, what))
+                rep.violation("successive responses on a pooled connection: " + what,
+                              {"kind": "input", "case": c, "impl_output": i, "model_output": m,
+                               "how_to_run": "tools/check.py --property C15 --replay <this file>"})
+        return {"harness": "h_client", "model_area": "client", "cases": len(cases), "compared": len(cases),
+                "rule": "Http::Experimental::Client with one connection per host against a scripted raw server: after a response the server sends a complete "
+                        "408 nobody asked for / half a response / two stray bytes and keeps the connection open, or sends the 408 and closes (what pistache's own "
+                        "server does with an idle connection), or answers with a head the client cannot parse and sends the body later, or stops half-way into "
+                        "a response (time-out); the next requests on that pool slot must each be fulfilled with their own response"}
+
+
 def run(rep, tier, seed):
-    return run_spec(C04(), rep, tier, seed)
+    return run_spec(C04WithClient(), rep, tier, seed)
 
 
 def replay(obj):
